@@ -26,6 +26,9 @@ def _asarray_model(I):
     """numpy.asarray hands back the very array it is given when no conversion is needed (an ndarray whose element type
     is the one asked for, or none asked for); only otherwise is the result a new array. The interpreter's general model
     always copies, which hides a caller's or an object's array being modified through the result."""
+    if getattr(I, '_c19_asarray', False):
+        return
+    I._c19_asarray = True
     base = I.native['numpy.asarray']
 
     def asarray(I_, fr, args, kwargs, n):
@@ -38,24 +41,53 @@ def _asarray_model(I):
     I.native['numpy.asarray'] = asarray
 
 
-def make_diagram(I, ci, nr, kind):
+def _argext_kind(I):
+    """an uninterpreted arg-extremum remembers which numpy function produced it: np.nanargmin/np.nanargmax skip
+    undefined (NaN) candidates, np.argmin/np.argmax answer with the first NaN candidate. (The interpreter has one model
+    for both spellings; an ArgV that already carries `nan` - set by the interpreter - is left as it is.)"""
+    if getattr(I, '_c19_argext', False):
+        return
+    I._c19_argext = True
+
+    def tag(v, nan):
+        if isinstance(v, ArgV):
+            if getattr(v, 'nan', None) is None:
+                v.nan = nan
+        elif isinstance(v, ListV):
+            for x in v.items:
+                tag(x, nan)
+
+    def wrap(base, nan):
+        def h(I_, fr, args, kwargs, n):
+            out = base(I_, fr, args, kwargs, n)
+            tag(out, nan)
+            return out
+        return h
+    for name, nan in (('numpy.argmin', False), ('numpy.argmax', False), ('numpy.nanargmin', True),
+                      ('numpy.nanargmax', True)):
+        if name in I.native:
+            I.native[name] = wrap(I.native[name], nan)
+
+
+def make_diagram(I, ci, nr, kind, tag=''):
     """PhaseDiagram(reactions, norm_factors) through its constructor; the factors are given as a list, as an array of
     floats (the documented type) or left out (documented default: ones)"""
     D = I.D
     _asarray_model(I)
-    rx = [rxn_obj(I, 'rxn%d' % i) for i in range(nr)]
+    _argext_kind(I)
+    rx = [rxn_obj(I, 'rxn%s%d' % (tag, i)) for i in range(nr)]
     kw = {'reactions': ListV(rx)}
     given = None
     if kind == 'default':
         vals = [C(1)] * nr
     else:
-        given = ListV([D.sym('nf%d' % i) for i in range(nr)])
+        given = ListV([D.sym('nf%s%d' % (tag, i)) for i in range(nr)])
         if kind == 'array':
             given.is_array = True
             given.dtype = 'float'
         vals = list(given.items)
         kw['norm_factors'] = given
-    pd = I.construct(ci, [], kw, name='pd')
+    pd = I.construct(ci, [], kw, name='pd' + tag)
     return pd, rx, vals, given
 
 
@@ -83,15 +115,76 @@ def factors_kept(run, I, ci, pd, vals, given, label, when):
                   % (label, when, show(given, 120)), owner.module, fn)
 
 
-def scan_1d(run, I, ci, pd, rx, vals, nx, units, xname, label, g='x'):
+def is_species_scan(name):
+    """conditions of ONE species are passed as <species name>_kwargs={'P': ...} (pmutt._get_specie_kwargs, documented
+    with Reaction): a scan over a per-species pressure has that name and dictionaries as grid values"""
+    return name.endswith('_kwargs')
+
+
+def grid_values(D, g, n, name, array=False):
+    syms = [D.sym('%s%d' % (g, j)) for j in range(n)]
+    if is_species_scan(name):
+        return ListV([DictV({'P': s}) for s in syms])
+    xs = ListV(syms)
+    if array:
+        xs.is_array = True
+        xs.dtype = 'float'
+    return xs
+
+
+def conditions(D, spec):
+    """fixed conditions of a request, {name: symbol name}: a per-species condition is a dictionary {'P': symbol}"""
+    return {k: (DictV({'P': D.sym(v)}) if is_species_scan(k) else D.sym(v)) for k, v in spec.items()}
+
+
+def cond_text(spec):
+    return ' fixed=' + ','.join('%s:%s' % (k, spec[k]) for k in sorted(spec)) if spec else ''
+
+
+def stable_ok(s_, col):
+    """the stable phase at one grid point: the arg-min over the candidates `col` (one per reaction)"""
+    if len(col) == 1:
+        return (isinstance(s_, Rat) and s_.iszero()) or (isinstance(s_, ArgV) and len(s_.cands) == 1)
+    return isinstance(s_, ArgV) and s_.which == 'min' and len(s_.cands) == len(col) and \
+        all(same(a, b) for a, b in zip(s_.cands, col))
+
+
+def nan_kind(run, cells, meth, label, owner, fn):
+    """the phase with the LOWEST energy: a candidate whose energy is undefined at a grid point (NaN: inf - inf of a
+    reaction with gases on both sides at P = 0, a logarithm of a negative pressure) is not the lowest, so the arg-min
+    has to be of the kind that skips undefined candidates - in get_GoRT_1D and get_GoRT_2D alike"""
+    kinds = set()
+    for s_ in cells:
+        if isinstance(s_, ArgV) and len(s_.cands) > 1:
+            k = getattr(s_, 'nan', None)
+            if k is None:
+                raise Unsupported('arg-min of unknown kind (NaN-skipping or not)')
+            kinds.add(bool(k))
+    run.check(False not in kinds, 'REF.argmin-nan', 'PhaseDiagram.' + meth, 'stable phase, undefined energies',
+              '[%s] the stable phase is taken with an arg-min that does not skip undefined energies (np.argmin where '
+              'np.nanargmin is needed): at a grid point where the energy of one reaction is undefined (NaN, e.g. gases '
+              'on both sides at P = 0) that reaction is reported as the stable phase instead of the one with the lowest '
+              'energy, and one- and two-parameter scans of the same diagram disagree' % label, owner.module, fn)
+
+
+def scan_1d(run, I, ci, pd, rx, vals, nx, units, xname, label, g='x', fixed=None, array=False, pass_units=True,
+            key=''):
+    """one request get_GoRT_1D(x_name, x_values[, G_units], **fixed). The reference: entry [i][j] is reaction i's own
+    delta G/RT under exactly the conditions of THIS request (the fixed ones and x_name = x_j; the uninterpreted
+    reaction names everything it is given) divided by factor i, times R*T iff units are asked for"""
     D = I.D
     nr = len(rx)
-    xs = ListV([D.sym('%s%d' % (g, j)) for j in range(nx)])
-    T = D.sym('T' + g)
+    xs = grid_values(D, g, nx, xname, array)
+    before = sig(xs)
     owner, fn = I.repo.find_method(ci, 'get_GoRT_1D')
     run.fn(owner.qual + '.get_GoRT_1D')
-    given = {} if xname == 'T' else {'T': T}
-    out = I.call_method(pd, 'get_GoRT_1D', [], dict({'x_name': xname, 'x_values': xs, 'G_units': units}, **given))
+    spec = ({} if xname == 'T' else {'T': 'T' + g}) if fixed is None else fixed
+    given = conditions(D, spec)
+    before_c = {k: sig(v) for k, v in given.items()}
+    kw = dict({'x_name': xname, 'x_values': xs}, **given)
+    if units is not None or pass_units:         # documented default of G_units: None
+        kw['G_units'] = units
+    out = I.call_method(pd, 'get_GoRT_1D', [], kw)
     if not (isinstance(out, ListV) and len(out) == 2):
         run.fail('REF.table', 'PhaseDiagram.get_GoRT_1D', 'result', '[%s] unexpected result %s'
                  % (label, show(out)), owner.module, fn)
@@ -106,39 +199,43 @@ def scan_1d(run, I, ci, pd, rx, vals, nx, units, xname, label, g='x'):
         isinstance(G.items[i], ListV) and len(G.items[i]) == nx and
         all(same(G.items[i].items[j], want(i, dict(given, **{xname: xs.items[j]}))) for j in range(nx))
         for i in range(nr))
-    run.check(ok, 'REF.table', 'PhaseDiagram.get_GoRT_1D', 'tabulated energies',
-              '[%s] tabulated entry is not the reaction\'s own delta G/RT divided by its normalisation factor'
-              '%s: %s' % (label, ' times RT' if units else '', show(G, 200)), owner.module, fn,
-              sample='[%s] G[i][j] == dG_i(x_j)/nf_i%s' % (label, '*R*T' if units else ''))
+    run.check(ok, 'REF.table', 'PhaseDiagram.get_GoRT_1D', 'tabulated energies' + key,
+              '[%s] tabulated entry is not the reaction\'s own delta G/RT under the conditions of this request (%s) '
+              'divided by its normalisation factor%s: %s'
+              % (label, ', '.join(sorted(list(given) + [xname])), ' times RT' if units else '', show(G, 200)),
+              owner.module, fn, sample='[%s] G[i][j] == dG_i(x_j)/nf_i%s' % (label, '*R*T' if units else ''))
+    run.check(sig(xs) == before and all(sig(v) == before_c[k] for k, v in given.items()), 'EFFECT.grid',
+              'PhaseDiagram.get_GoRT_1D', 'caller\'s grid and conditions',
+              '[%s] the grid values or the condition dictionaries handed in have been modified: %s'
+              % (label, show(xs, 120)), owner.module, fn)
     if not ok:
         return
     # the stable phase at grid point j minimises over the reactions at that point
-    good = isinstance(stable, ListV) and len(stable) == nx
-    if good:
-        for j in range(nx):
-            s_ = stable.items[j]
-            col = [G.items[i].items[j] for i in range(nr)]
-            if nr == 1:
-                good = good and ((isinstance(s_, Rat) and s_.iszero()) or
-                                 (isinstance(s_, ArgV) and len(s_.cands) == 1))
-            else:
-                good = good and isinstance(s_, ArgV) and s_.which == 'min' and len(s_.cands) == nr and \
-                    all(same(a, b) for a, b in zip(s_.cands, col))
+    good = isinstance(stable, ListV) and len(stable) == nx and all(
+        stable_ok(stable.items[j], [G.items[i].items[j] for i in range(nr)]) for j in range(nx))
     run.check(good, 'AXIS.argmin', 'PhaseDiagram.get_GoRT_1D', 'stable phase per grid point',
               '[%s] the arg-min must run over the %d reactions at each of the %d grid points; got %s'
               % (label, nr, nx, show(stable, 200)), owner.module, fn)
+    if good:
+        nan_kind(run, stable.items, 'get_GoRT_1D', label, owner, fn)
 
 
-def scan_2d(run, I, ci, pd, rx, vals, nx, nx2, n1, n2, units2, label, g='x', h='y'):
+def scan_2d(run, I, ci, pd, rx, vals, nx, nx2, n1, n2, units2, label, g='x', h='y', fixed=None, array=False,
+            pass_units=True, key=''):
     D = I.D
     nr = len(rx)
-    xs = ListV([D.sym('%s%d' % (g, j)) for j in range(nx)])
-    ys = ListV([D.sym('%s%d' % (h, j)) for j in range(nx2)])
+    xs = grid_values(D, g, nx, n1, array)
+    ys = grid_values(D, h, nx2, n2, array)
+    before = sig(xs) + sig(ys)
     owner, fn = I.repo.find_method(ci, 'get_GoRT_2D')
     run.fn(owner.qual + '.get_GoRT_2D')
-    fixed = {} if 'T' in (n1, n2) else {'T': D.sym('Tfix' + g)}
-    out = I.call_method(pd, 'get_GoRT_2D', [], dict({'x1_name': n1, 'x1_values': xs, 'x2_name': n2,
-                                                     'x2_values': ys, 'G_units': units2}, **fixed))
+    spec = ({} if 'T' in (n1, n2) else {'T': 'Tfix' + g}) if fixed is None else fixed
+    fixed = conditions(D, spec)
+    before_c = {k: sig(v) for k, v in fixed.items()}
+    kw_ = dict({'x1_name': n1, 'x1_values': xs, 'x2_name': n2, 'x2_values': ys}, **fixed)
+    if units2 is not None or pass_units:
+        kw_['G_units'] = units2
+    out = I.call_method(pd, 'get_GoRT_2D', [], kw_)
     if not (isinstance(out, ListV) and len(out) == 2):
         run.fail('REF.table', 'PhaseDiagram.get_GoRT_2D', 'result', '[%s] unexpected result %s'
                  % (label, show(out)), owner.module, fn)
@@ -155,12 +252,18 @@ def scan_2d(run, I, ci, pd, rx, vals, nx, nx2, n1, n2, units2, label, g='x', h='
                 ok = ok and same(G.items[i].items[j].items[k], w)
             except (AttributeError, IndexError):
                 ok = False
-    run.check(ok, 'REF.table', 'PhaseDiagram.get_GoRT_2D', 'tabulated energies',
-              '[%s] tabulated entry [i][j][k] is not dG_i(x1_j, x2_k)/nf_i%s' % (
-                  label, ' times R*T at that grid point' if units2 else ''), owner.module, fn)
+    run.check(ok, 'REF.table', 'PhaseDiagram.get_GoRT_2D', 'tabulated energies' + key,
+              '[%s] tabulated entry [i][j][k] is not dG_i/nf_i under the conditions of this request (%s, %s = x1_j, '
+              '%s = x2_k)%s: %s' % (label, ', '.join(sorted(fixed)) or 'no fixed ones', n1, n2,
+                                    ' times R*T at that grid point' if units2 else '', show(G, 200)), owner.module, fn)
+    run.check(sig(xs) + sig(ys) == before and all(sig(v) == before_c[k] for k, v in fixed.items()), 'EFFECT.grid',
+              'PhaseDiagram.get_GoRT_2D', 'caller\'s grids and conditions',
+              '[%s] the grid values or the condition dictionaries handed in have been modified: %s; %s'
+              % (label, show(xs, 100), show(ys, 100)), owner.module, fn)
     if not ok:
         return
     good = isinstance(stable, ListV) and len(stable) == nx
+    cells = []
     if good:
         for j, k in itertools.product(range(nx), range(nx2)):
             try:
@@ -168,24 +271,75 @@ def scan_2d(run, I, ci, pd, rx, vals, nx, nx2, n1, n2, units2, label, g='x', h='
             except (AttributeError, IndexError):
                 good = False
                 break
-            col = [G.items[i].items[j].items[k] for i in range(nr)]
-            if nr == 1:
-                good = good and ((isinstance(s_, Rat) and s_.iszero()) or
-                                 (isinstance(s_, ArgV) and len(s_.cands) == 1))
-            else:
-                good = good and isinstance(s_, ArgV) and s_.which == 'min' and len(s_.cands) == nr and \
-                    all(same(a, b) for a, b in zip(s_.cands, col))
+            cells.append(s_)
+            good = good and stable_ok(s_, [G.items[i].items[j].items[k] for i in range(nr)])
     run.check(good, 'AXIS.argmin', 'PhaseDiagram.get_GoRT_2D', 'stable phase per grid point',
               '[%s] the arg-min must run over the reactions at each (x1, x2) grid point; got %s'
               % (label, show(stable, 200)), owner.module, fn,
               sample='[%s] stable[j][k] == argmin_i G[i][j][k]' % label)
+    if good:
+        nan_kind(run, cells, 'get_GoRT_2D', label, owner, fn)
+
+
+SP = 'xO2_kwargs'       # conditions of the species named xO2 (mixed case: no case folding maps the name to itself)
+
+
+def rq(kind, *axes, u=None, fixed=None, g=None):
+    return {'kind': kind, 'axes': axes, 'u': u, 'fixed': fixed, 'g': g}
+
+
+# one diagram asked several times. Requests that share the scan variable(s), the grid (tag g: the very same symbols)
+# and the units differ in the FIXED conditions only, or leave out a condition an earlier request gave: every answer is
+# decided against the conditions of its own request
+SEQS = (
+    (rq('1D', 'T', u='kJ/mol'), rq('1D', 'P'), rq('2D', 'T', 'P', u='kJ/mol'), rq('2D', 'P', 'T'),
+     rq('1D', 'P', u='kJ/mol')),
+    (rq('2D', 'T', 'P', u='kJ/mol'), rq('1D', 'T'), rq('1D', 'P_B', u='kJ/mol'), rq('2D', 'T', 'P')),
+    (rq('1D', 'T', fixed={'P': 'p1'}, g='a'), rq('1D', 'T', fixed={'P': 'p2'}, g='a'),
+     rq('1D', 'T', fixed={}, g='a'),
+     rq('1D', 'P', u='kJ/mol', fixed={'T': 'T1'}, g='b'), rq('1D', 'P', u='kJ/mol', fixed={'T': 'T2'}, g='b'),
+     rq('1D', 'T', u='kJ/mol', fixed={SP: 'q1'}, g='a'), rq('1D', 'T', u='kJ/mol', fixed={}, g='a'),
+     rq('1D', 'T', fixed={'P': 'p1'}, g='a')),
+    (rq('2D', 'T', 'P', fixed={SP: 'q1'}, g='c'), rq('2D', 'T', 'P', fixed={SP: 'q2'}, g='c'),
+     rq('2D', 'T', 'P', fixed={}, g='c'),
+     rq('2D', 'P', SP, u='kJ/mol', fixed={'T': 'T1'}, g='d'), rq('2D', 'P', SP, u='kJ/mol', fixed={'T': 'T2'}, g='d'),
+     rq('1D', SP, fixed={'T': 'T1', 'P': 'p1'}, g='e'), rq('1D', SP, fixed={'T': 'T1'}, g='e'),
+     rq('2D', 'T', 'P', fixed={'n': 'n1'}, g='c')),
+)
+
+
+def rq_text(r):
+    return '%s %s units=%s%s' % (r['kind'], ' '.join(r['axes']), r['u'], cond_text(r['fixed'] or {}))
+
+
+def request(run, I, ci, pd, rx, vals, r, pos, base, done, array, nx=2):
+    g = r['g'] or 'abcdefgh'[pos]
+    after = (' after ' + '; '.join(done)) if done else ''
+    # a request that repeats an earlier one except for the fixed conditions has a finding key of its own
+    key = ', conditions of this request' if r['fixed'] is not None and done else ''
+    if r['kind'] == '1D':
+        label = '%s request %d: 1D scan=%s units=%s%s%s' % (base, pos + 1, r['axes'][0], r['u'],
+                                                             cond_text(r['fixed'] or {}), after)
+        scan_1d(run, I, ci, pd, rx, vals, nx, r['u'], r['axes'][0], label, g=g, fixed=r['fixed'], array=array,
+                pass_units=pos % 2 == 0, key=key)
+    else:
+        label = '%s request %d: 2D x1=%s x2=%s units=%s%s%s' % (base, pos + 1, r['axes'][0], r['axes'][1], r['u'],
+                                                                cond_text(r['fixed'] or {}), after)
+        scan_2d(run, I, ci, pd, rx, vals, nx, 2, r['axes'][0], r['axes'][1], r['u'], label, g=g, h=g.upper(),
+                fixed=r['fixed'], array=array, pass_units=pos % 2 == 0, key=key)
+    done.append(rq_text(r))
 
 
 def phase_diagrams(run, repo):
     ci = repo.cls(PD)
     n = 0
+    full = run.tier == 'thorough'
     for nr, nx in ((1, 1), (2, 3), (3, 2), (3, 4)):
-        for units, xname in itertools.product((None, 'kJ/mol'), ('P', 'T', 'P_B')):
+        # scan variables: the common pressure, the temperature, any further keyword of the reactions (P_B, n) and the
+        # conditions of one species (<name>_kwargs with dictionaries as grid values)
+        for units, xname in itertools.product((None, 'kJ/mol'), ('P', 'T', 'P_B', 'O2_kwargs', 'n')):
+            if xname == 'n' and not full and (nr, units) != (2, None):
+                continue
             I = Interp(repo)
             pd, rx, vals, given = make_diagram(I, ci, nr, 'list')
             label = '1D reactions=%d grid=%d units=%s%s' % (nr, nx, units, '' if xname == 'P' else ' scan=' + xname)
@@ -196,25 +350,33 @@ def phase_diagrams(run, repo):
                          % (label, show(pd)), owner.module, fn)
                 continue
             factors_kept(run, I, ci, pd, vals, given, label, 'after construction')
-            scan_1d(run, I, ci, pd, rx, vals, nx, units, xname, label)
-        # 2-D: every assignment of the scan variables (temperature first, second, or fixed), with and without units
+            scan_1d(run, I, ci, pd, rx, vals, nx, units, xname, label, array=xname == 'P_B',
+                    pass_units=xname != 'T', key=', scan over the conditions of one species'
+                    if is_species_scan(xname) else '')
+        # 2-D: every assignment of the scan variables (temperature first, second, or fixed; a species' own conditions
+        # first or second), with and without units
         for nx2, (n1, n2, units2) in itertools.product((1, 2, 3), (('T', 'P', None), ('T', 'P', 'kJ/mol'),
                                                                   ('P', 'T', 'kJ/mol'), ('P', 'P_B', 'kJ/mol'),
-                                                                  ('P', 'T', None))):
+                                                                  ('P', 'T', None), ('T', SP, None),
+                                                                  (SP, 'T', 'kJ/mol'), ('n', 'O2_kwargs', 'kJ/mol'))):
+            if not full and nx2 != 2 and (is_species_scan(n1) or is_species_scan(n2)):
+                continue        # the species scans on the other grid sizes: thorough tier
             I = Interp(repo)
             pd, rx, vals, given = make_diagram(I, ci, nr, 'list')
             label = '2D reactions=%d grid=%dx%d x1=%s x2=%s units=%s' % (nr, nx, nx2, n1, n2, units2)
             n += 1
             if not isinstance(pd, Obj):
                 continue        # reported by the one-parameter instance of this size
-            scan_2d(run, I, ci, pd, rx, vals, nx, nx2, n1, n2, units2, label)
+            scan_2d(run, I, ci, pd, rx, vals, nx, nx2, n1, n2, units2, label, array=n2 == 'P_B',
+                    pass_units=n1 != 'P', key=', scan over the conditions of one species'
+                    if is_species_scan(n1) or is_species_scan(n2) else '')
     # one diagram asked several times: factors given as an array of floats (the documented type), as a list, or left
     # out (ones); scans with and without units, in one and two parameters, in both orders - every answer is decided
-    # against the factors the diagram was given, and the diagram still shows those factors afterwards
-    seqs = ((('1D', 'T', 'kJ/mol'), ('1D', 'P', None), ('2D', 'T', 'P', 'kJ/mol'), ('2D', 'P', 'T', None),
-             ('1D', 'P', 'kJ/mol')),
-            (('2D', 'T', 'P', 'kJ/mol'), ('1D', 'T', None), ('1D', 'P_B', 'kJ/mol'), ('2D', 'T', 'P', None)))
-    for nr, kind, (si, seq) in itertools.product((1, 2, 3), ('array', 'default', 'list'), enumerate(seqs)):
+    # against the factors the diagram was given and the conditions of the request itself, and the diagram still shows
+    # those factors afterwards
+    for nr, kind, (si, seq) in itertools.product((1, 2, 3), ('array', 'default', 'list'), enumerate(SEQS)):
+        if si >= 2 and not full and (nr, kind) not in ((1, 'array'), (2, 'default'), (3, 'list'), (2, 'array')):
+            continue
         I = Interp(repo)
         pd, rx, vals, given = make_diagram(I, ci, nr, kind)
         base = 'reactions=%d factors=%s' % (nr, {'array': 'array of floats', 'default': 'not given',
@@ -227,18 +389,37 @@ def phase_diagrams(run, repo):
             continue
         factors_kept(run, I, ci, pd, vals, given, base, 'after construction')
         done = []
-        for ci_, call in enumerate(seq):
-            g = 'abcde'[ci_]
-            if call[0] == '1D':
-                label = '%s request %d: 1D scan=%s units=%s%s' % (base, ci_ + 1, call[1], call[2],
-                                                                   (' after ' + '; '.join(done)) if done else '')
-                scan_1d(run, I, ci, pd, rx, vals, 2, call[2], call[1], label, g=g)
-            else:
-                label = '%s request %d: 2D x1=%s x2=%s units=%s%s' % (base, ci_ + 1, call[1], call[2], call[3],
-                                                                       (' after ' + '; '.join(done)) if done else '')
-                scan_2d(run, I, ci, pd, rx, vals, 2, 2, call[1], call[2], call[3], label, g=g, h=g.upper())
-            done.append(' '.join(str(c_) for c_ in call))
-            factors_kept(run, I, ci, pd, vals, given, base, 'after request %d (%s)' % (ci_ + 1, done[-1]))
+        for pos, r in enumerate(seq):
+            request(run, I, ci, pd, rx, vals, r, pos, base, done, array=kind == 'array')
+            factors_kept(run, I, ci, pd, vals, given, base, 'after request %d (%s)' % (pos + 1, done[-1]))
+            n += 1
+    # two diagrams (other reactions, other factors, another number of phases) in one program, asked in turn for the
+    # same scan variable, grid and units: nothing of the answers to one diagram - tables, conditions - may show up
+    # in the answers of the other
+    two = ((0, rq('1D', 'T', fixed={'P': 'p1'}, g='a')), (1, rq('1D', 'T', fixed={}, g='a')),
+           (1, rq('1D', 'P', u='kJ/mol', fixed={'T': 'T1'}, g='b')),
+           (0, rq('1D', 'P', u='kJ/mol', fixed={'T': 'T2'}, g='b')),
+           (0, rq('2D', 'T', 'P', u='kJ/mol', fixed={SP: 'q1'}, g='c')),
+           (1, rq('2D', 'T', 'P', u='kJ/mol', fixed={}, g='c')), (0, rq('1D', 'T', fixed={}, g='a')))
+    for nr, (kind_a, kind_b) in itertools.product((1, 2, 3), (('list', 'array'), ('default', 'list'))):
+        if not full and (nr + (kind_a == 'list')) % 2:
+            continue
+        I = Interp(repo)
+        nr_b = nr % 3 + 1
+        pds = (make_diagram(I, ci, nr, kind_a), make_diagram(I, ci, nr_b, kind_b, tag='B'))
+        n += 1
+        if not all(isinstance(p[0], Obj) for p in pds):
+            continue            # reported above
+        done = []
+        for pos, (which, r) in enumerate(two):
+            pd, rx, vals, given = pds[which]
+            base = 'two diagrams (reactions=%d factors=%s; reactions=%d factors=%s), the %s one' % (
+                nr, kind_a, nr_b, kind_b, ('first', 'second')[which])
+            request(run, I, ci, pd, rx, vals, r, pos, base, done, array=False)
+            done[-1] = '%s diagram: %s' % (('first', 'second')[which], done[-1])
+            for wh, (pd_, rx_, vals_, given_) in enumerate(pds):
+                factors_kept(run, I, ci, pd_, vals_, given_, base, 'the %s diagram after request %d (%s)'
+                             % (('first', 'second')[wh], pos + 1, done[-1]))
             n += 1
     return n
 
@@ -269,20 +450,43 @@ def species_stub(name, attrs, extra=()):
     return o
 
 
+def extremes_at(nstates, imax, imin):
+    """an ordering of nstates state energies with the highest at position imax and the lowest at position imin; the
+    others in an order that depends on the pair (neither ascending nor descending)"""
+    rest = [i for i in range(nstates) if i not in (imax, imin)]
+    sh = (imax * 7 + imin * 3) % max(1, len(rest))
+    rest = rest[sh:][::-1] + rest[:sh]
+    perm = [None] * nstates
+    perm[imax], perm[imin] = nstates - 1, 0
+    for rk, i in enumerate(rest):
+        perm[i] = rk + 1
+    return tuple(perm)
+
+
 def e_span(run, repo, max_states):
     n = 0
     ci = repo.cls('pmutt.reaction.Reactions')
     owner, fn = repo.find_method(ci, 'get_E_span')
     run.fn(owner.qual + '.get_E_span')
-    # sequences of 1-3 steps, with and without transition states
-    shapes = [(True,), (False,), (True, False), (False, True), (True, True), (False, False, True)]
+    # sequences of 1-3 steps, with and without transition states: every ordering of the state energies; longer
+    # sequences (up to the 8 steps of the property): every pair of positions of the highest and the lowest state
+    thorough = max_states > 6
+    shapes = [(True,), (False,), (False, False), (True, False), (False, True), (True, True), (False, False, False),
+              (False, False, True), (False, True, True, False)]
+    if thorough:
+        shapes += [(True, False, False, True, False, True), (True,) * 8, (False,) * 8]
     for shape in shapes:
         nstates = sum(3 if ts else 2 for ts in shape)
-        if nstates > max_states:
+        if nstates <= max_states:
+            perms = list(itertools.permutations(range(nstates)))
+            if len(perms) > 720:
+                perms = perms[::len(perms) // 720 + 1]
+            if not thorough and shape == (False, False, False):
+                perms = perms[::3]          # every (highest, lowest) pair of positions is still there several times
+        elif len(shape) > 3:
+            perms = [extremes_at(nstates, a, b) for a in range(nstates) for b in range(nstates) if a != b]
+        else:
             continue
-        perms = list(itertools.permutations(range(nstates)))
-        if len(perms) > 720:
-            perms = perms[::len(perms) // 720 + 1]
         for pi, perm in enumerate(perms):
             # the conditions the span is asked for: every one of them (unit, temperature, pressure, conditions given
             # per species) must reach every state energy - the state energies are named by all they were given
@@ -295,16 +499,7 @@ def e_span(run, repo, max_states):
                 I = Interp(repo, order=RankOrder(ranks, fallback=lambda a, ranks=ranks: next(
                     (rk for nm, rk in ranks.items() if a.split(';')[0] == nm.split(';')[0]), None)))
                 D = I.D
-                units = ('kJ/mol', 'eV', 'kcal/mol')[variant]
-                conds = ({'T': D.sym('T')},
-                         {'T': D.sym('T'), 'P': D.sym('P')},
-                         {'T': D.sym('T'), 'P': D.sym('P'), 'A_kwargs': DictV({'P': D.sym('pA')})})[variant]
-
-                def gname(step, state, units=units, conds=conds):
-                    return '%s.G[%s;units=%s;%s]' % (step, state, units, ','.join(
-                        '%s=%s' % (k, sig(conds[k])) for k in sorted(conds)))
                 rxns = []
-                names = []
                 for si, ts in enumerate(shape):
                     r = Obj('step%d' % si)
                     r.attrs['reactants'] = 'R'
@@ -319,25 +514,46 @@ def e_span(run, repo, max_states):
                             '%s=%s' % (k, sig(kw[k])) for k in sorted(kw))))
                     r.opaque_methods['get_G_state'] = G
                     rxns.append(r)
-                    for st in ('reactants',) + (('transition_state',) if ts else ()) + ('products',):
-                        names.append(gname('step%d' % si, st))
-                for nm, rk in zip(names, perm):
-                    ranks[nm] = rk
                 seq = Obj('seq', ci, attrs={'reactions': ListV(rxns)})
-                got = I.call_method(seq, 'get_E_span', [], dict({'units': units}, **conds))
-                imax = max(range(nstates), key=lambda i: perm[i])
-                imin = min(range(nstates), key=lambda i: perm[i])
-                want = D.sym(names[imax]) - D.sym(names[imin])
-                if imax < imin:
-                    want = want + D.sym(names[-1]) - D.sym(names[0])
-                n += 1
-                run.check(isinstance(got, Rat) and got.eq(want), 'REF.span', 'Reactions.get_E_span',
-                          'span', '[steps=%s ordering=%s units=%s conditions=%s] span is %s, expected highest minus '
-                          'lowest%s of the state energies at the units and conditions asked for'
-                          % (shape, perm, units, sorted(conds), show(got, 160),
-                             ' plus the overall reaction energy' if imax < imin else ''),
-                          owner.module, fn,
-                          sample='steps=%s ordering=%s -> %s' % (shape, perm, show(want, 100)) if n % 97 == 0 else None)
+                # the same sequence asked a second time (every third ordering; thorough tier: every one): in another
+                # unit, at another temperature and with the opposite ordering - nothing of the first answer survives
+                calls = [(('kJ/mol', 'eV', 'kcal/mol')[variant], 'T', perm)]
+                if thorough or pi % 3 == 0:
+                    calls.append((('eV', 'kcal/mol', 'kJ/mol')[variant], 'T2', tuple(nstates - 1 - r_ for r_ in perm)))
+                for call, (units, Tname, pm) in enumerate(calls):
+                    conds = ({'T': D.sym(Tname)},
+                             {'T': D.sym(Tname), 'P': D.sym('P')},
+                             {'T': D.sym(Tname), 'P': D.sym('P'), 'A_kwargs': DictV({'P': D.sym('pA')})})[variant]
+                    names = []
+                    for si, ts in enumerate(shape):
+                        for st in ('reactants',) + (('transition_state',) if ts else ()) + ('products',):
+                            names.append('step%d.G[%s;units=%s;%s]' % (si, st, units, ','.join(
+                                '%s=%s' % (k, sig(conds[k])) for k in sorted(conds))))
+                    if call:
+                        # states asked under the first request's conditions keep the first request's places
+                        first = dict(ranks)
+                        ranks.clear()
+                        ranks.update(zip(names, pm))
+                        ranks.update(first)
+                    ranks.update(zip(names, pm))
+                    got = I.call_method(seq, 'get_E_span', [], dict({'units': units}, **conds))
+                    imax = max(range(nstates), key=lambda i: pm[i])
+                    imin = min(range(nstates), key=lambda i: pm[i])
+                    want = D.sym(names[imax]) - D.sym(names[imin])
+                    if imax < imin:
+                        want = want + D.sym(names[-1]) - D.sym(names[0])
+                    n += 1
+                    run.check(isinstance(got, Rat) and got.eq(want), 'REF.span', 'Reactions.get_E_span',
+                              'span' if call == 0 else 'span, second request',
+                              '[steps=%s ordering=%s units=%s conditions=%s%s] span is %s, expected highest minus '
+                              'lowest%s of the state energies at the units and conditions asked for'
+                              % (shape, pm, units, sorted(conds), '' if call == 0 else
+                                 ', second request to the sequence (first: units=%s at T, opposite ordering)'
+                                 % calls[0][0], show(got, 160),
+                                 ' plus the overall reaction energy' if imax < imin else ''),
+                              owner.module, fn,
+                              sample='steps=%s ordering=%s -> %s' % (shape, pm, show(want, 100))
+                              if n % 97 == 0 else None)
     # Network.get_E_span (own copy)
     m = repo.module('pmutt.reaction.network')
     nci = m.classes.get('Network')
@@ -569,6 +785,107 @@ MUTANTS = [
                 '                                       **kwargs))\n'
                 "            node['G'] = G[-1]\n"
                 '        # Get indices for TDI and TDTS')]},
+    # ---- white-box round 2 ----
+    # a table cache whose key leaves out the conditions held fixed during the scan (same scan variable, same grid,
+    # same units, another fixed pressure/temperature: the first table again)
+    {'name': '1D tables cached without the fixed conditions in the key', 'expect': ('REF.table', 'get_GoRT_1D'),
+     'edits': [(P_, '            self.norm_factors = norm_factors\n',
+                '            self.norm_factors = norm_factors\n        self._tables = {}\n'),
+               (P_, '        GoRT = np.zeros(shape=(len(self.reactions), len(x_values)))\n',
+                '        key = (x_name, tuple(x_values), G_units)\n'
+                '        try:\n'
+                '            GoRT, stable_phases = self._tables[key]\n'
+                '        except KeyError:\n'
+                '            pass\n'
+                '        else:\n'
+                '            return (GoRT.copy(), stable_phases.copy())\n'
+                '        GoRT = np.zeros(shape=(len(self.reactions), len(x_values)))\n'),
+               (P_, '        stable_phases = np.nanargmin(GoRT, axis=0)\n',
+                '        stable_phases = np.nanargmin(GoRT, axis=0)\n'
+                '        self._tables[key] = (GoRT.copy(), stable_phases.copy())\n')]},
+    {'name': '2D tables cached without the fixed conditions in the key', 'expect': ('REF.table', 'get_GoRT_2D'),
+     'edits': [(P_, '            self.norm_factors = norm_factors\n',
+                '            self.norm_factors = norm_factors\n        self._tables = {}\n'),
+               (P_, '        GoRT = np.zeros(shape=(len(self.reactions), len(x1_values),\n',
+                '        key = (x1_name, tuple(x1_values), x2_name, tuple(x2_values), G_units)\n'
+                '        try:\n'
+                '            return self._tables[key]\n'
+                '        except KeyError:\n'
+                '            pass\n'
+                '        GoRT = np.zeros(shape=(len(self.reactions), len(x1_values),\n'),
+               (P_, '        return GoRT, stable_phases\n',
+                '        self._tables[key] = (GoRT, stable_phases)\n        return GoRT, stable_phases\n')]},
+    # the cache knows all the conditions but not the diagram: a second diagram gets the first one's table
+    {'name': '1D tables cached for all diagrams together', 'expect': ('REF.table', 'get_GoRT_1D'),
+     'edits': [(P_, 'class PhaseDiagram(Reactions):\n', '_TABLES = {}\n\n\nclass PhaseDiagram(Reactions):\n'),
+               (P_, '        GoRT = np.zeros(shape=(len(self.reactions), len(x_values)))\n',
+                '        key = (x_name, tuple(x_values), G_units, tuple(kwargs.items()))\n'
+                '        try:\n'
+                '            return _TABLES[key]\n'
+                '        except KeyError:\n'
+                '            pass\n'
+                '        GoRT = np.zeros(shape=(len(self.reactions), len(x_values)))\n'),
+               (P_, '        return (GoRT, stable_phases)\n',
+                '        _TABLES[key] = (GoRT, stable_phases)\n        return (GoRT, stable_phases)\n')]},
+    # late binding: every lambda of the comprehension sees the last reaction and the last factor
+    {'name': 'phase energies as lambdas built in a comprehension', 'expect': ('REF.table', 'get_GoRT_1D'),
+     'edits': [(P_, '        for i, (reaction, norm_factor) in enumerate(\n'
+                '                zip(self.reactions, self.norm_factors)):\n'
+                '            for j, x in enumerate(x_values):\n'
+                '                kwargs[x_name] = x\n'
+                '                GoRT[i, j] = reaction.get_delta_GoRT(**kwargs) / norm_factor\n',
+                '        phases = [lambda **conditions: reaction.get_delta_GoRT(**conditions) / norm_factor\n'
+                '                  for reaction, norm_factor in zip(self.reactions, self.norm_factors)]\n'
+                '        for i, phase in enumerate(phases):\n'
+                '            for j, x in enumerate(x_values):\n'
+                '                kwargs[x_name] = x\n'
+                '                GoRT[i, j] = phase(**kwargs)\n')]},
+    # a mutable default keeps the conditions of earlier requests (of any diagram)
+    {'name': '1D conditions collected in a mutable default', 'expect': ('REF.table', 'get_GoRT_1D'),
+     'edits': [(P_, '    def get_GoRT_1D(self, x_name, x_values, G_units=None, **kwargs):',
+                '    def get_GoRT_1D(self, x_name, x_values, G_units=None, conditions={}, **kwargs):'),
+               (P_, '        GoRT = np.zeros(shape=(len(self.reactions), len(x_values)))\n',
+                '        conditions.update(kwargs)\n        kwargs = conditions\n'
+                '        GoRT = np.zeros(shape=(len(self.reactions), len(x_values)))\n')]},
+    {'name': '2D conditions collected in a mutable default', 'expect': ('REF.table', 'get_GoRT_2D'),
+     'edits': [(P_, '                    G_units=None,\n                    **kwargs):\n        """Calculates',
+                '                    G_units=None,\n                    conditions={},\n                    **kwargs):\n'
+                '        """Calculates'),
+               (P_, '        GoRT = np.zeros(shape=(len(self.reactions), len(x1_values),\n',
+                '        conditions.update(kwargs)\n        kwargs = conditions\n'
+                '        GoRT = np.zeros(shape=(len(self.reactions), len(x1_values),\n')]},
+    # names of scan variables rewritten: <species>_kwargs no longer reaches the species
+    {'name': '1D scan name upper-cased', 'expect': ('REF.table', 'get_GoRT_1D'),
+     'edits': [(P_, '        GoRT = np.zeros(shape=(len(self.reactions), len(x_values)))\n',
+                '        x_name = x_name.upper()\n'
+                '        GoRT = np.zeros(shape=(len(self.reactions), len(x_values)))\n')]},
+    {'name': '2D scan names upper-cased', 'expect': ('REF.table', 'get_GoRT_2D'),
+     'edits': [(P_, '        GoRT = np.zeros(shape=(len(self.reactions), len(x1_values),\n',
+                '        x1_name, x2_name = x1_name.upper(), x2_name.upper()\n'
+                '        GoRT = np.zeros(shape=(len(self.reactions), len(x1_values),\n')]},
+    {'name': '2D second scan name capitalised', 'expect': ('REF.table', 'get_GoRT_2D'),
+     'edits': [(P_, '        GoRT = np.zeros(shape=(len(self.reactions), len(x1_values),\n',
+                '        x2_name = x2_name.capitalize()\n'
+                '        GoRT = np.zeros(shape=(len(self.reactions), len(x1_values),\n')]},
+    # arg-min that does not skip undefined energies
+    {'name': '2D arg-min vectorised with np.argmin', 'expect': ('REF.argmin-nan', 'get_GoRT_2D'),
+     'edits': [(P_, '        GoRT_T = GoRT.transpose((1, 2, 0))\n'
+                '        stable_phases = np.zeros((len(x1_values), len(x2_values)))\n'
+                '        for i, GoRT_row in enumerate(GoRT_T):\n'
+                '            stable_phases[i, :] = np.nanargmin(GoRT_row, axis=1)\n',
+                '        stable_phases = np.argmin(GoRT, axis=0).astype(float)\n')]},
+    {'name': '1D arg-min with np.argmin', 'expect': ('REF.argmin-nan', 'get_GoRT_1D'),
+     'edits': [(P_, '        stable_phases = np.nanargmin(GoRT, axis=0)\n',
+                '        stable_phases = np.argmin(GoRT, axis=0)\n')]},
+    # the documented default of G_units (None: G/RT) changed
+    {'name': '1D default of G_units is kJ/mol', 'expect': ('REF.table', 'get_GoRT_1D'),
+     'edits': [(P_, '    def get_GoRT_1D(self, x_name, x_values, G_units=None, **kwargs):',
+                "    def get_GoRT_1D(self, x_name, x_values, G_units='kJ/mol', **kwargs):")]},
+    # the per-species dictionary of a grid point is filled in instead of copied
+    {'name': '1D grid dictionaries completed in place', 'expect': ('EFFECT.grid', 'get_GoRT_1D'),
+     'edits': [(P_, '                kwargs[x_name] = x\n                GoRT[i, j] = reaction',
+                "                if isinstance(x, dict):\n                    x.setdefault('T', kwargs.get('T'))\n"
+                '                kwargs[x_name] = x\n                GoRT[i, j] = reaction')]},
 ]
 EQUIV = [
     # the harmless twins of two mutants above: R folded into a COPY of the factors; T named in the signature and handed
@@ -596,4 +913,32 @@ EQUIV = [
                 '                                       units=units,\n'
                 '                                       T=T,\n'
                 '                                       **kwargs))')]},
+    # the harmless twins of round 2's mutants: the cache key holds every condition and the cache is the diagram's own;
+    # np.nanargmin kept when the 2-D arg-min is vectorised; lambdas of a comprehension with the loop variables bound
+    # as defaults; the conditions dictionary is created per call
+    {'name': '2D arg-min vectorised with np.nanargmin',
+     'edits': [(P_, '        GoRT_T = GoRT.transpose((1, 2, 0))\n'
+                '        stable_phases = np.zeros((len(x1_values), len(x2_values)))\n'
+                '        for i, GoRT_row in enumerate(GoRT_T):\n'
+                '            stable_phases[i, :] = np.nanargmin(GoRT_row, axis=1)\n',
+                '        stable_phases = np.nanargmin(GoRT, axis=0).astype(float)\n')]},
+    {'name': 'phase energies as lambdas with the loop variables bound as defaults',
+     'edits': [(P_, '        for i, (reaction, norm_factor) in enumerate(\n'
+                '                zip(self.reactions, self.norm_factors)):\n'
+                '            for j, x in enumerate(x_values):\n'
+                '                kwargs[x_name] = x\n'
+                '                GoRT[i, j] = reaction.get_delta_GoRT(**kwargs) / norm_factor\n',
+                '        phases = [lambda r=reaction, nf=norm_factor, **conditions: r.get_delta_GoRT(**conditions) / nf\n'
+                '                  for reaction, norm_factor in zip(self.reactions, self.norm_factors)]\n'
+                '        for i, phase in enumerate(phases):\n'
+                '            for j, x in enumerate(x_values):\n'
+                '                kwargs[x_name] = x\n'
+                '                GoRT[i, j] = phase(**kwargs)\n')]},
+    {'name': '1D conditions dictionary created per call',
+     'edits': [(P_, '    def get_GoRT_1D(self, x_name, x_values, G_units=None, **kwargs):',
+                '    def get_GoRT_1D(self, x_name, x_values, G_units=None, conditions=None, **kwargs):'),
+               (P_, '        GoRT = np.zeros(shape=(len(self.reactions), len(x_values)))\n',
+                '        conditions = dict(conditions or {})\n'
+                '        conditions.update(kwargs)\n        kwargs = conditions\n'
+                '        GoRT = np.zeros(shape=(len(self.reactions), len(x_values)))\n')]},
 ]
